@@ -24,5 +24,7 @@ if [ "$what" = seeded ] || [ "$what" = all ]; then
   for d in seeded/*/; do id=$(basename "$d"); prop=$(python3 -c "import json;print(json.load(open('$d/meta.json'))['property'])"); run "$id" "$prop" "$d/patch.diff"; done
 fi
 if [ "$what" = selftest ] || [ "$what" = all ]; then
-  for f in selftest/*/*.diff; do prop=$(basename "$(dirname "$f")"); run "$(basename "$f" .diff)" "$prop" "$f"; done
+  for f in selftest/C*/*.diff; do prop=$(basename "$(dirname "$f")"); run "$(basename "$f" .diff)" "$prop" "$f"; done
+  # harmless control changes: the check must stay silent (MISSED is the expected verdict here)
+  for f in selftest/controls/*.diff; do b=$(basename "$f" .diff); prop=${b%%-*}; run "control:$b" "$prop" "$f" | sed -e 's/ MISSED/ control-silent(expected)/' -e 's/ caught/ CONTROL-ALARM/'; done
 fi
